@@ -313,7 +313,8 @@ def get_runs(ctx, n_quick=24, n_thorough=240):
     CACHE.mkdir(exist_ok=True)
     gen_hash = hashlib.sha256(json.dumps([{k: (v if k != "loads" else hashlib.sha256(repr(v).encode()).hexdigest()) for k, v in c.items()} for c in cfgs],
                                          sort_keys=True, default=str).encode()).hexdigest()[:10]
-    key = f"designs-{ctx.tier}-{ctx.seed}-{repo_hash()}-{gen_hash}.json"
+    src_hash = hashlib.sha256(b"".join((Path(__file__).resolve().parent / f).read_bytes() for f in ("designlib.py", "ghelib.py"))).hexdigest()[:8]
+    key = f"designs-{ctx.tier}-{ctx.seed}-{repo_hash()}-{gen_hash}-{src_hash}.json"
     path = CACHE / key
     if path.exists():
         try:
